@@ -4,6 +4,7 @@ import (
 	"bufio"
 	"bytes"
 	"context"
+	"encoding/base64"
 	"encoding/json"
 	"errors"
 	"fmt"
@@ -183,12 +184,24 @@ var c11Versions = []c11Lines{
 var c11Keys = []c11Lines{
 	{"valid", []string{c11ValidKey}},
 	{"valid-ff", []string{"/////////////////////w=="}},
+	// 16 bytes whose last digit carries non-zero padding bits: not what an encoder
+	// produces, still "decodes to 16 bytes"; the accept value hashes the key as sent
+	{"noncanonical-zero", []string{"AAAAAAAAAAAAAAAAAAAAAB=="}},
+	{"noncanonical-sample", []string{"dGhlIHNhbXBsZSBub25jZR=="}},
 	{"absent", nil},
 	{"two-lines", []string{c11ValidKey, c11ValidKey}},
 	{"15-bytes", []string{"AAECAwQFBgcICQoLDA0O"}},
 	{"17-bytes", []string{"AAECAwQFBgcICQoLDA0ODxA="}},
 	{"not-base64", []string{"!!!!not*base64!!!!!!!!=="}},
 	{"empty", []string{""}},
+}
+
+func c11NonCanonicalKey(key []string) bool {
+	if len(key) != 1 {
+		return false
+	}
+	raw, err := base64.StdEncoding.DecodeString(key[0])
+	return err == nil && base64.StdEncoding.EncodeToString(raw) != key[0]
 }
 
 var c11Offered = []c11Lines{
@@ -199,9 +212,10 @@ var c11Offered = []c11Lines{
 	{"two-lines", []string{"chat", "echo"}},
 	{"two-lines-rev", []string{"echo", "chat"}},
 	{"three-lines", []string{"echo", "foo", "bar"}},
+	{"mixed-case-pair", []string{"v1.chat, v2.Chat"}},
 }
 
-var c11Supported = [][]string{nil, {"echo"}, {"echo", "chat"}, {"foo"}}
+var c11Supported = [][]string{nil, {"echo"}, {"echo", "chat"}, {"foo"}, {"ECHO"}, {"v2.Chat", "v1.chat"}}
 
 // dimensions, least significant first (simplest values first in every dimension)
 var c11Dims = []int{len(c11Offered), len(c11Supported), len(c11Keys), len(c11Versions), len(c11Upgrades), len(c11Connections), len(c11Protos), len(c11Methods)}
@@ -306,6 +320,12 @@ func c11One(c *fw.Ctx, cs c11Case) {
 			c.Violate("C11/hijacked-on-refusal", fmt.Sprintf("%+v: Accept returned no connection (err=%v) but called Hijack %d time(s)", cs, err, w.hijacks), cs)
 			return
 		}
+		if len(failed) == 0 && c11NonCanonicalKey(cs.Key) {
+			// a stricter decoder may refuse padding bits; only the answer to an
+			// accepted request is judged for these keys
+			c.OutcomeStr(fmt.Sprintf("refused %d noncanonical-key", w.status))
+			return
+		}
 		if len(failed) == 0 {
 			c.Violate("C11/refused-valid-request", fmt.Sprintf("%+v: request satisfies every clause of the predicate but Accept refused it: status %d, err=%v", cs, w.status, err), cs)
 			return
@@ -372,7 +392,7 @@ func c11SelfTest(c *fw.Ctx) bool {
 		return false
 	}
 	// every key variant must land in the model clause its name announces
-	wantClause := map[string]string{"valid": "", "valid-ff": "", "absent": handshake.ClKeyMissing, "two-lines": handshake.ClKeyDuplicate,
+	wantClause := map[string]string{"valid": "", "valid-ff": "", "noncanonical-zero": "", "noncanonical-sample": "", "absent": handshake.ClKeyMissing, "two-lines": handshake.ClKeyDuplicate,
 		"15-bytes": handshake.ClKeyLength, "17-bytes": handshake.ClKeyLength, "not-base64": handshake.ClKeyNotBase64, "empty": handshake.ClKeyLength}
 	for _, k := range c11Keys {
 		r := ok
